@@ -377,7 +377,8 @@ def run(model, rep):
     rule_e(model, rep)
     rule_f(model, rep)
     rule_gh(model, rep)
-    from . import shared
+    from . import shared, c04
+    c04.rule_d(model, shared.Renamed(rep, {"C04.d": "C09.g-generator-inside-window"}))
     shared.falsy_zero_lint(model, rep, "C09.i-zero-is-a-value", lambda un: un.startswith(("passlib.handlers", "passlib.utils.handlers")),
                            lambda un, q: q.split(".")[-1] == "using",
                            witness="using(<option>=0) is silently ignored: the derived hasher keeps the inherited setting")
